@@ -7,8 +7,10 @@
  S  `serpent_no_unroll` == unrolled: encrypt_block and decrypt_block of Serpent, interpreted with Herbrand terms on a
     symbolic instance and block under the two configurations in one term table, yield identical output terms
     (global value numbering: the loop form unrolls to the macro form under constant propagation).
+ C  `aes_compact` == default fixslice: rule_C below (bit-level canonical terms, instance from KeyInit::new on a symbolic
+    key, so the key schedules are compared too).
  (Run-time selection of the AES backend by the CPU token is decided under C12 rule U.)
-Not decided: equality of AES-NI / ARMv8 / fixslice64 / fixslice32 / compact and of the Kuznyechik SSE2 / NEON /
+Not decided: equality of AES-NI / ARMv8 / fixslice64 / fixslice32 and of the Kuznyechik SSE2 / NEON /
 table / compact back-ends -- different algorithms for the same function.
 """
 import hashlib, json
@@ -223,9 +225,82 @@ def rule_S(chk, Fa, Fb, name_a, name_b):
     return n
 
 
+def rule_C(chk, Fa, Fb, name_a, name_b):
+    """aes_compact changes no result of the bitsliced AES: for each of Aes128/192/256 and each direction, the output
+    of the single-block backend routine on a symbolic block, with the instance `KeyInit::new` builds from a symbolic key,
+    is the same bit-level canonical term in the two configurations (engine L3b; S-box pair as a position-wise opaque
+    inverse pair after its lemma)."""
+    import equiv, engine, c01, c04, bitform
+    import terms as T
+    from interp import State
+    from ops import flatten
+    n = 0
+    with equiv.TermMode():
+        outs = {}
+        try:
+            setups = {}
+            for (nm, F) in ((name_a, Fa), (name_b, Fb)):
+                spec = c01.bitlevel_spec('aes::soft')
+                summ, inv, lem, verdict = c01.bitlevel_setup(F.mono, spec)
+                if summ is None:
+                    if verdict is False:
+                        chk.violation('C-aes-compact', '%s|lemma' % nm, 'aes (%s): %s' % (nm, lem))
+                    else:
+                        chk.undecided.append('aes_compact equivalence: bit-level mode not applicable in %s (%s)' % (nm, lem))
+                    return n
+                setups[nm] = (summ, inv)
+            # one term universe for both configurations (the lemmas above each used their own)
+            equiv.fresh_terms()
+            for (nm, F) in ((name_a, Fa), (name_b, Fb)):
+                m = F.mono
+                summ, inv = setups[nm]
+                for (self_ty, trait, single, par) in c04.backend_pairs(m):
+                    sname = pretty(m.ty(self_ty)['s'])
+                    if not sname.startswith('aes::soft::'):
+                        continue
+                    cipher_s = c04.wrapped_cipher(m, self_ty)
+                    news = c04.soft_new(m, cipher_s) if cipher_s else []
+                    if not news:
+                        continue
+                    I = c04.soft_interp(m, summ, inv, fresh=False)
+                    st0 = State()
+                    fnew = m.fn(news[0])
+                    args = engine.default_args(I, st0, fnew)
+                    status, cipher = engine.run(I, fnew['id'], args, st0)
+                    if status != 'ok':
+                        chk.fail_closed('C-aes-compact', '%s|%s|new' % (nm, sname), '%s %s' % (status, str(cipher)[:200]))
+                        continue
+                    status, r, _b, sout = c04.soft_call(I, m, self_ty, cipher, single, None, 'c')
+                    if status != 'ok':
+                        chk.fail_closed('C-aes-compact', '%s|%s|run' % (nm, sname), '%s %s' % (status, str(r)[:200]))
+                        continue
+                    inout_ty = m.ty(single['mir']['locals'][2])
+                    block_ty = [I.types[fd['t']]['t'] for fd in inout_ty['variants'][0]['f'] if I.types[fd['t']]['k'] == 'ptr'][0]
+                    outs[(nm, sname)] = [bitform.recanon(b.term) if b.term is not None else None for b in flatten(I, sout, block_ty)]
+        finally:
+            T.BITCANON = False
+            engine._INTERPS.clear()
+        for (nm, sname), a in sorted(outs.items()):
+            if nm != name_a:
+                continue
+            b = outs.get((name_b, sname))
+            key = '%s~%s|%s' % (name_a, name_b, sname)
+            if b is None:
+                chk.fail_closed('C-aes-compact', key, '%s has no counterpart in %s' % (sname, name_b))
+                continue
+            n += 1
+            bad = [i for i, (x, y) in enumerate(zip(a, b)) if x is None or x is not y]
+            if bad:
+                chk.violation('C-aes-compact', key, '%s: output byte %d differs between the aes_compact and the default fixslice build '
+                              '(bit-level canonical forms of the two terms differ)' % (sname, bad[0]))
+            else:
+                chk.ok('C-aes-compact', key, dict(backend=sname, bytes=len(a), configs=[name_a, name_b]))
+    return n
+
+
 def run(chk, facts_by_config):
     chk.trusted += ['rustc: identical MIR => identical function', 'the rewrite rules of analysis/terms.py (rule S)']
-    chk.undecided += ['AES: AES-NI vs ARMv8 vs fixslice64 vs fixslice32 vs compact compute the same function',
+    chk.undecided += ['AES: AES-NI vs ARMv8 vs fixslice64 vs fixslice32 compute the same function',
                       'Kuznyechik: SSE2 vs NEON vs table vs compact back-ends compute the same function']
     names = list(facts_by_config)
     pairs = [(a, a + '-all') for a in names if a + '-all' in facts_by_config]
@@ -236,3 +311,6 @@ def run(chk, facts_by_config):
     if 'x64' in facts_by_config and 'x64-alt1' in facts_by_config:
         n = rule_S(chk, facts_by_config['x64'], facts_by_config['x64-alt1'], 'x64', 'x64-alt1')
         chk.floor('S-serpent-unroll', n, 'S.x64')
+    if 'x64-soft' in facts_by_config and 'x64-alt1' in facts_by_config:
+        n = rule_C(chk, facts_by_config['x64-soft'], facts_by_config['x64-alt1'], 'x64-soft', 'x64-alt1')
+        chk.floor('C-aes-compact', n, 'C.x64-soft')
